@@ -10,9 +10,9 @@ git apply --check $S/patch.diff || { echo "patch does not apply"; exit 2; }
 git apply $S/patch.diff
 cp $S/demo.rs tests/verif_seed_demo.rs
 existing=$(cargo test --offline --no-fail-fast --test parse --test print --test macro --lib 2>&1 | grep -E "^test result" | tr '\n' ' ')
-demo_mut=$(cargo test --offline --test verif_seed_demo 2>&1 | grep -E "^test result" | tr '\n' ' ')
+demo_mut=$(cargo test --offline --features canonicalize --test verif_seed_demo 2>&1 | grep -E "^test result" | tr '\n' ' ')
 git checkout -q -- src
-demo_orig=$(cargo test --offline --test verif_seed_demo 2>&1 | grep -E "^test result" | tr '\n' ' ')
+demo_orig=$(cargo test --offline --features canonicalize --test verif_seed_demo 2>&1 | grep -E "^test result" | tr '\n' ' ')
 rm -f tests/verif_seed_demo.rs
 echo "existing(with mutation): $existing"
 echo "demo with mutation:      $demo_mut"
